@@ -12,18 +12,26 @@ for f in sorted(glob.glob(os.path.join(VERIF, "seeded", "*", "meta.json"))):
         txt = open(readme).read()
         mm = re.search(r"(?is)(needs?|manifest|trigger)[^\n]*\n(.{0,300})", txt)
     what = m.get("what", "")
-    caught = []
+    target = m.get("breaks", "")
+    tres, also = "not run", []
     for p, c in sorted(m.get("checks", {}).items()):
         if c.get("caught"):
             vs = c.get("violations", [""])
             kind = "failing input" if any("no-failing-input-found" not in v for v in vs) else "no-failing-input-found"
-            caught.append("%s (%s)" % (p, kind))
-        else:
-            caught.append("%s MISSED" % p)
-    rows.append((sid, m.get("breaks", ""), "yes" if m.get("confirmed") else "NO", "; ".join(caught), m.get("note", "")))
-tab = ["| seeded change | breaks | confirmed | quick checks run against it | note |", "|---|---|---|---|---|"]
+            if p == target:
+                tres = "VIOLATION (%s)" % kind
+            else:
+                also.append(p)
+        elif p == target:
+            tres = "MISSED"
+    if m.get("sweep"):
+        tres += " [%s]" % m["sweep"]
+    if not m.get("confirmed") and m.get("checks") == {}:
+        tres = "change no longer breaks the property on the current tree"
+    rows.append((sid, target, "yes" if m.get("confirmed") else "see note", tres, ", ".join(also), m.get("note", "")))
+tab = ["| seeded change | target | confirmed | quick check of the target property | also caught by | note |", "|---|---|---|---|---|---|"]
 for r in rows:
-    tab.append("| %s | %s | %s | %s | %s |" % r)
+    tab.append("| %s | %s | %s | %s | %s | %s |" % r)
 body = "\n".join(tab)
 p = os.path.join(VERIF, "DESIGN.md")
 s = open(p).read()
